@@ -18,6 +18,11 @@ AppendRound(feed, key, price, t) ==
   LET rs == Rounds(feed, key)
   IN [feed EXCEPT !.rounds[key] = Append(rs, [id |-> Len(rs), price |-> price, t |-> t])]
 
+(* handle.rs::append_multiple_price *)
+RECURSIVE AppendMany(_, _, _, _, _)
+AppendMany(feed, key, prices, ts, i) ==
+  IF i > Len(prices) THEN feed ELSE AppendMany(AppendRound(feed, key, prices[i], ts[i]), key, prices, ts, i + 1)
+
 (* query.rs::query_get_price -- the *record* the real feed answers with *)
 RealGetPrice(feed, key) == Last(Rounds(feed, key))
 
